@@ -145,9 +145,10 @@ def theorems_in(path):
         if m and ns and ns[-1] == m.group(1):
             ns.pop()
             continue
-        m = re.match(r"\s*(?:private\s+|protected\s+)?theorem\s+([^\s:({\[]+)", line)
-        if m and "private" not in line.split("theorem")[0]:
-            out.append(".".join(ns + [m.group(1)]))
+        m = re.match(r"\s*(?:@\[[^\]]*\]\s*)?(?:private\s+|protected\s+|noncomputable\s+)*(?:theorem|lemma)\s+([^\s:({\[]+)", line)
+        if m and "private" not in re.split(r"theorem|lemma", line)[0]:
+            name = m.group(1)
+            out.append(name[len("_root_."):] if name.startswith("_root_.") else ".".join(ns + [name]))
     return out
 
 
